@@ -23,7 +23,7 @@ struct Th {
     std::atomic<int> go{0};
     TState st = T_RUNNABLE;
     const void* futex_addr = nullptr;
-    uint64_t seen_epoch = 0;     // write epoch at this thread's latest atomic access
+    uint64_t iter_epoch = 0;     // write epoch when this thread's current spin-loop iteration began
     bool accessed = false;       // did an atomic access since it last parked on a spin point
 };
 struct Run {
@@ -93,10 +93,12 @@ void reschedule(int me, bool me_done) {
     wait_go(r->ths[me]);
 }
 
-bool is_write(int kind, int ok) {
+// does the access change shared state?  (a store/RMW that writes back the value already there does not: a thread
+// spinning on `while (flag.exchange(true))` must be able to park)
+bool is_write(int kind, int ok, uint64_t a, uint64_t b) {
     switch (kind) {
-    case K_STORE: case K_XCHG: case K_FADD: case K_FSUB: case K_FAND: case K_FOR: case K_FXOR: return true;
-    case K_CAS: return ok != 0;
+    case K_STORE: case K_XCHG: case K_FADD: case K_FSUB: case K_FAND: case K_FOR: case K_FXOR: return a != b;
+    case K_CAS: return ok != 0 && a != b;
     default: return false;
     }
 }
@@ -115,12 +117,11 @@ void post(int kind, const volatile void* addr, int order, uint64_t a, uint64_t b
     if (!controlled()) return;
     Run* r = g_run;
     r->res.log.push_back(Event{t_self, kind, order, ok, (const void*)addr, a, b, nullptr});
-    if (is_write(kind, ok)) {
+    if (is_write(kind, ok, a, b)) {
         // a write may satisfy any spinner's condition: make them runnable again
         r->write_epoch++;
         for (auto* t : r->ths) if (t->st == T_SPIN) t->st = T_RUNNABLE;
     }
-    r->ths[t_self]->seen_epoch = r->write_epoch;
     r->ths[t_self]->accessed = true;
 }
 
@@ -129,11 +130,18 @@ static void spin_point(int kind) {
     Run* r = g_run;
     r->res.log.push_back(Event{t_self, kind, 0, 1, nullptr, 0, 0, nullptr});
     Th* me = r->ths[t_self];
-    // Park only if this thread has looked at shared state since it last parked and nothing was written since
-    // it looked: then re-checking is pointless until some other thread writes.  (Back-off loops call pause
-    // several times in a row; only the first one after a look parks.)
-    if (me->accessed && me->seen_epoch == r->write_epoch) { me->st = T_SPIN; me->accessed = false; }
+    // A spin loop iteration = the code between two spin points that contains at least one atomic access.
+    // Park only after a *clean* iteration: nobody (this thread included) wrote shared state while it ran, so the
+    // next iteration would read the same values and do the same thing; re-running it is pointless until another
+    // thread writes.  (Back-off loops call pause several times in a row: spin points without an access in between
+    // do not start a new iteration.)
+    if (me->accessed) {
+        me->accessed = false;
+        if (me->iter_epoch == r->write_epoch) me->st = T_SPIN;
+        else me->iter_epoch = r->write_epoch;
+    }
     reschedule(t_self, false);
+    if (me->st == T_RUNNABLE) me->iter_epoch = r->write_epoch;   // (re)start of an iteration
 }
 void pause_point() { spin_point(K_PAUSE); }
 void yield_point() { spin_point(K_YIELD); }
